@@ -6,6 +6,7 @@ package cosih
 
 import (
 	"bufio"
+	"bytes"
 	"crypto/sha512"
 	"fmt"
 	"io"
@@ -286,7 +287,8 @@ func Resolve(prop string, cases []*MCase) error {
 }
 
 type session struct {
-	cmd *exec.Cmd
+	errb bytes.Buffer
+	cmd  *exec.Cmd
 	in  io.WriteCloser
 	out *bufio.Reader
 	n   int
@@ -302,11 +304,11 @@ func newSession(root, prop string) (*session, error) {
 	if err != nil {
 		return nil, err
 	}
-	cmd.Stderr = nil
+	s := &session{cmd: cmd, in: in, out: bufio.NewReaderSize(outp, 1<<20)}
+	cmd.Stderr = &s.errb
 	if err := cmd.Start(); err != nil {
 		return nil, err
 	}
-	s := &session{cmd: cmd, in: in, out: bufio.NewReaderSize(outp, 1<<20)}
 	_, err = s.ask("From Coq Require Import List ZArith NArith Bool String.\nImport ListNotations.\n" +
 		"Require Import Mixin.Base.Res Mixin.Run." + prop + ".\nOpen Scope Z_scope.\n" +
 		"Set Printing Width 1000000.\nSet Printing Depth 10000000.\n")
@@ -375,7 +377,11 @@ func resolveShard(root, prop string, cases []*MCase, idx []int) error {
 		}
 		i := strings.Index(txt, name+" =")
 		if i < 0 {
-			return fmt.Errorf("needs evaluation failed (round %d): %.400s", round, txt)
+			e := s.errb.String()
+			if len(e) > 1200 {
+				e = e[len(e)-1200:]
+			}
+			return fmt.Errorf("needs evaluation failed (round %d): %.200s %s", round, txt, e)
 		}
 		txt = txt[i+len(name)+2:]
 		if j := strings.LastIndex(txt, ": list"); j >= 0 {
